@@ -1,4 +1,5 @@
 import SR.Proofs.Checker.Eventually
+import SR.Proofs.Checker.Sim
 import SR.Checker.Sched
 import SR.Checker.Graph
 /-!
@@ -39,6 +40,28 @@ theorem C03_eventually (cs : List Choice) : ∀ e ∈ (run P cs).disc, ∀ pr, P
     (∀ t ∈ e.2, pr.cond t = false) ∧ ∃ s, e.2.getLast? = some s ∧ P.M.succB s = [] :=
   fun e he pr hpr hexp => (einv_run (P := P) cs).disc e he pr hpr hexp
 
+/-! ### The simulation checker (`SR/Checker/Sim.lean`)
+
+For every chooser (the list of its answers), every number of traces, every configuration.  The hypothesis says that
+states with the same identity agree on the property conditions (true when fingerprints do not collide; under
+`.symmetry()` it is the invariance of the conditions, exactly the property's premise). -/
+
+/-- every discovery of a simulation run is a real in-boundary path ending in a witness; on an eventually discovery
+    no state satisfies the condition and the path cannot be extended inside the boundary or closes a cycle. -/
+theorem C03_sim
+    (hkc : ∀ a b, P.M.Reach a → P.M.Reach b → P.key a = P.key b → ∀ pr ∈ P.props, pr.cond a = pr.cond b)
+    (fuel n : Nat) (answers : List Nat) :
+    ∀ e ∈ (Sim.runTraces P fuel n answers {}).disc,
+      P.M.IsPath e.2 ∧ e.1 < P.props.length ∧
+      (∀ pr, P.props[e.1]? = some pr →
+        (pr.exp = .always → ∃ s, e.2.getLast? = some s ∧ pr.cond s = false) ∧
+        (pr.exp = .sometimes → ∃ s, e.2.getLast? = some s ∧ pr.cond s = true) ∧
+        (pr.exp = .eventually → (∀ t ∈ e.2, pr.cond t = false) ∧
+          ((∃ t, e.2.getLast? = some t ∧ P.M.succB t = []) ∨ Sim.CyclesBack P e.2))) := by
+  intro e he
+  have h := Sim.runTraces_ok (P := P) hkc fuel n answers {} (by intro e he; simp at he) e he
+  refine ⟨h.path, h.idx, fun pr hpr => ⟨(h.wit pr hpr).1, (h.wit pr hpr).2, fun hev => h.ev pr hpr hev⟩⟩
+
 /-! ### Non-vacuity and regression witness: the graph of defect F4 (`0→{1,2}, 2→3`, properties
 `[eventually (= 2), always true]`).  The machine — like the repaired code — reports `[0, 1]`, not `[0, 2, 3]`. -/
 
@@ -52,5 +75,15 @@ def f4Params : Params Nat Nat Nat :=
 
 example : (runSingle f4Params .bfs 200).disc = [(0, [0, 1])] := by decide
 example : (runSingle f4Params .dfs 200).disc = [(0, [0, 1])] := by decide
+
+/-- defect F5 regression (`0→{1 (outside), 2 (satisfies, terminal)}`): the repaired simulation reports nothing,
+    whichever action is chosen first -/
+def f5Graph : Graph :=
+  { n := 3, init := [0], adj := [[some 1, some 2], [], []], bnd := [true, false, true] }
+def f5Params : Params Nat Nat Nat :=
+  { M := f5Graph.toSys, props := [{ exp := .eventually, cond := fun s => s == 2 }],
+    key := id, cfg := { target := some 1 }, finishMatches := fun d => d.length == 1 }
+example : (Sim.runTraces f5Params 10 3 [0, 0, 0] {}).disc = [] := by decide
+example : (Sim.runTraces f5Params 10 3 [0, 1, 0] {}).disc = [] := by decide
 
 end SR.C03
